@@ -222,7 +222,8 @@ def fresh_like(I, st0, v, name, cands, path=()):
         import inv, lax_model
         r = VRec(v.ty, {k: fresh_like(I, st0, x, name, cands, path + (k,)) for k, x in v.f.items()})
         if v.ty == inv.LH:
-            lax_model.LIST_ELEM[r.f["adjacency"].t] = "hyperedge"
+            if isinstance(r.f["adjacency"], VSeq):
+                lax_model.LIST_ELEM[r.f["adjacency"].t] = "hyperedge"
             lax_model.LABEL_LEAVES.add(r.f["nodes"].t)
             lax_model.LABEL_LEAVES.add(r.f["edges"].t)
         if v.ty in (inv.LH, inv.LOH):
